@@ -97,6 +97,11 @@ class SpatialLayer(Layer):
             if dirs:
                 raise Unsupported("second derivative of a seeded operand")
             return (self.seed[base] + sfx, tuple(comp) + (self.k,), idx, ())
+        if world.two_sided and not sfx:
+            # derivatives of a quantity that is continuous across a facet are still one-sided
+            if world.side_of_facet is None:
+                raise Unsupported("derivative of a terminal on an interior facet without a restriction")
+            name = base + "{" + world.side_of_facet + "}"
         if self.kind == "x" and world.x_via_X is not None:
             # affine cell: d/dx_k = sum_j K[j,k] d/dX_j  (K constant on the cell)
             tdim, Kfn = world.x_via_X
@@ -162,6 +167,7 @@ class World:
         self.opq_hook = None         # callable(world, e, comp, env) -> value | NotImplemented (defines opaque operands)
         self.extra_axioms = []
         self._memos = {}
+        self.two_sided = False       # interior-facet semantics: values live on the '+' or '-' side
         self.x_via_X = None          # (tdim, Kfn(world, j, i)) : physical derivatives expressed through reference ones
 
     # -- bookkeeping
